@@ -12,7 +12,7 @@ import re
 from ..gfi import distribution
 from ..gfi.common import Obs
 from ..program import AnalysisError
-from ..rules import is_call, is_mcall, mcalls, mentions
+from ..rules import Arms, is_call, is_mcall, mcalls, mentions
 from ..terms import C, Evaluator, G, P, is_t, mk_proj, show, subterms
 
 TFP = "distributions/tensorflow_probability/__init__.py"
@@ -61,7 +61,7 @@ def run(chk, prog):
     _, ed = prog.func("exact_density", DM)
     kw = prog.nested(ed, "kwargle")
     rk = Evaluator(prog).eval_fn(kw, dm)
-    got = {}
+    got = Arms()
     for conds, ret in rk.returns:
         got["packed" if any(p for t, p in conds) else "plain"] = ret
     F_, A0, AR, KWA = P("f"), P("a0"), P("args"), P("kwargs")
@@ -83,7 +83,7 @@ def run(chk, prog):
     _, il = prog.func("implicit_logit_warning", DM)
     wr = prog.nested(il, "wrapper")
     rw = Evaluator(prog).eval_fn(wr, dm, env0={"dist": P("dist")})
-    got = {}
+    got = Arms()
     for conds, ret in rw.returns:
         # path conditions are in canonical polarity: `if implicit_logits is not None` is recorded as (implicit_logits is None, False)
         got["bare" if any(is_t(t, "is") and t[2] == C(None) and not p for t, p in conds) else "kw"] = ret
